@@ -45,7 +45,7 @@ const METHOD_NAMES: &[&str] = &["Get", "GetURL", "Get2FA", "ListAll", "Move", "T
 const ERROR_NAMES: &[&str] = &["NotFound", "NotOK", "Failed", "IOError", "Bad2", "PermissionDenied", "E", "TooManyURLs"];
 const FIELD_NAMES: &[&str] = &["name", "value", "userId", "user_id", "type", "self", "URL", "x2", "fooBar", "match", "id", "items", "async", "try", "is_ok", "super", "box", "count", "a_b_c", "fn"];
 const VARIANT_NAMES: &[&str] = &["one", "two", "camelCase", "IPv6", "snake_case", "UPPER", "a1", "off", "on", "type", "self"];
-const LAST_SEGMENTS: &[&str] = &["Svc", "svc", "my-svc", "svc2", "a1", "Manager", "IO", "v1beta"];
+const LAST_SEGMENTS: &[&str] = &["Svc", "svc", "my-svc", "svc2", "a1", "Manager", "IO", "v1beta", "2fa", "x-1"];
 
 fn is_fixpoint_name(kind: u8, name: &str) -> bool {
     match kind {
